@@ -439,6 +439,10 @@ fn replay_gated() {
                         fails.push(format!("T{t} get({key}) failed although the key was present at its lookup: {e}"));
                     }
                 }
+                "checkpoint" => {
+                    ROLE.with(|r| r.set(Some(t)));
+                    let _ = cas.checkpoint();
+                }
                 "delete_orphan" => {
                     let hh = calculate_blob_hash(&content(h));
                     ROLE.with(|r| r.set(Some(t)));
@@ -474,6 +478,38 @@ fn replay_gated() {
             let p = cas.paths.cas_file_path(&item.blob_hash);
             if !p.exists() {
                 failures.push(format!("key {k:?} is visible in the index but its blob {} does not exist (dangling reference)", item.blob_hash));
+            }
+        }
+    }
+    if violation == "lost-update" || violation == "snapshot-inconsistent" {
+        // writer || checkpoint: the writer's acknowledged operation must be visible now, and also after a crash at this very
+        // moment (the directory is copied as it is and opened by a fresh instance: snapshot + log = acknowledged history)
+        let writers: Vec<usize> = kinds.iter().enumerate().filter(|(_, k)| *k == "put" || *k == "remove").map(|(t, _)| t).collect();
+        if writers.len() == 1 {
+            let t = writers[0];
+            let key = keyname(v[format!("t{t}_key")].as_i64().unwrap_or(0));
+            let want: Option<Vec<u8>> = if kinds[t] == "put" { Some(content(v[format!("t{t}_hash")].as_i64().unwrap_or(0))) } else { None };
+            let check = |c: &Cas<String>, whenn: &str, failures: &mut Vec<String>| {
+                let got = c.get(&key).ok().flatten().map(|b| b.as_ref().to_vec());
+                if got != want {
+                    failures.push(format!("{whenn}: key {key:?} should {} but {}", if want.is_some() { "hold the content just put" } else { "be absent" },
+                                          match &got { Some(g) => format!("holds {} other bytes", g.len()), None => "is absent / unreadable".into() }));
+                }
+            };
+            check(&cas, "live, after every call returned", &mut failures);
+            let copy = tempfile::tempdir().unwrap();
+            fn cp(a: &std::path::Path, b: &std::path::Path) {
+                std::fs::create_dir_all(b).unwrap();
+                for e in std::fs::read_dir(a).unwrap().flatten() {
+                    let (p, q) = (e.path(), b.join(e.file_name()));
+                    if p.is_dir() { cp(&p, &q); } else if e.file_name() != "LOCK" { let _ = std::fs::copy(&p, &q); }
+                }
+            }
+            cp(dir.path(), copy.path());
+            let cfg2 = Config { num_ops_per_wal: NonZeroU64::new(10_000).unwrap(), scan_orphans_on_startup: false, ..Default::default() };
+            match Cas::<String>::open(copy.path(), cfg2) {
+                Ok(c2) => check(&c2, "after a crash at this moment and a restart", &mut failures),
+                Err(e) => failures.push(format!("the store does not reopen from a copy of its directory: {e}")),
             }
         }
     }
